@@ -40,73 +40,132 @@ def _stable(name):
     return getattr(_tf, name, None)
 
 
+def _kern(a, b, tc1, tc2, mode, f):
+    return dict(kernel_post=F.exp_stdp_post_kernel, kernel_pre=F.exp_stdp_pre_kernel,
+                kernel_post_kwargs={"learning_rate": a, "time_constant": tc1},
+                kernel_pre_kwargs={"learning_rate": b, "time_constant": tc2}, batch_reduction=f)
+
+
+# name: (class, parameter, factors, needs delays, hyperparameters(r1, r2, tc1, tc2, trace mode, reduction))
+# the hyperparameter dictionaries are valid BOTH as constructor keywords (trainer-level defaults)
+# and as register_cell(...) keywords (per-cell overrides); r1 governs the causal term T1
 KINDS = {
-    # name: (class, parameter, factors, needs delays, constructor(r1, r2, f))
     "STDP": (L.STDP, "weight", 2, False,
-             lambda a, b, f, **o: L.STDP(a, b, TAU, TAU, batch_reduction=f, **o)),
+             lambda a, b, t1, t2, m, f: dict(lr_post=a, lr_pre=b, tc_post=t2, tc_pre=t1, trace_mode=m,
+                                             batch_reduction=f)),
     "StableSTDP": (_stable("StableSTDP"), "weight", 2, False,
-                   lambda a, b, f, **o: _stable("StableSTDP")(a, b, TAU, TAU, batch_reduction=f, **o)),
+                   lambda a, b, t1, t2, m, f: dict(lr_post=a, lr_pre=b, tc_post=t2, tc_pre=t1, trace_mode=m,
+                                                   batch_reduction=f)),
     "TripletSTDP": (L.TripletSTDP, "weight", 2, False,
-                    lambda a, b, f, **o: L.TripletSTDP(a, 0.125, b, 0.125, TAU, 2 * TAU, TAU, 2 * TAU,
-                                                       batch_reduction=f, **o)),
+                    lambda a, b, t1, t2, m, f: dict(lr_post_pair=a, lr_post_triplet=0.125, lr_pre_pair=b,
+                                                    lr_pre_triplet=0.125, tc_post_fast=t2, tc_post_slow=2 * t2,
+                                                    tc_pre_fast=t1, tc_pre_slow=2 * t1, trace_mode=m,
+                                                    batch_reduction=f)),
     "StableTripletSTDP": (_stable("StableTripletSTDP"), "weight", 2, False,
-                          lambda a, b, f, **o: _stable("StableTripletSTDP")(a, 0.125, b, 0.125, TAU, 2 * TAU, TAU,
-                                                                           2 * TAU, batch_reduction=f, **o)),
+                          lambda a, b, t1, t2, m, f: dict(lr_post_pair=a, lr_post_triplet=0.125, lr_pre_pair=b,
+                                                          lr_pre_triplet=0.125, tc_post_fast=t2,
+                                                          tc_post_slow=2 * t2, tc_pre_fast=t1, tc_pre_slow=2 * t1,
+                                                          trace_mode=m, batch_reduction=f)),
     "DelayAdjustedSTDP": (L.DelayAdjustedSTDP, "weight", 2, True,
-                          lambda a, b, f, **o: L.DelayAdjustedSTDP(a, b, TAU, TAU, batch_reduction=f)),
+                          lambda a, b, t1, t2, m, f: dict(lr_pos=a, lr_neg=b, tc_pos=t1, tc_neg=t2,
+                                                          batch_reduction=f)),
     "DelayAdjustedSTDPD": (L.DelayAdjustedSTDPD, "delay", 2, True,
-                           lambda a, b, f, **o: L.DelayAdjustedSTDPD(a, b, TAU, TAU, batch_reduction=f)),
+                           lambda a, b, t1, t2, m, f: dict(lr_neg=a, lr_pos=b, tc_neg=t1, tc_pos=t2,
+                                                           batch_reduction=f)),
     "MSTDP": (L.MSTDP, "weight", 3, False,
-              lambda a, b, f, **o: L.MSTDP(a, b, TAU, TAU, batch_reduction=f, **o)),
+              lambda a, b, t1, t2, m, f: dict(lr_post=a, lr_pre=b, tc_post=t2, tc_pre=t1, trace_mode=m,
+                                              batch_reduction=f)),
     "MSTDPET": (L.MSTDPET, "weight", 3, False,
-                lambda a, b, f, **o: L.MSTDPET(a, b, TAU, TAU, TAU, batch_reduction=f, **o)),
+                lambda a, b, t1, t2, m, f: dict(lr_post=a, lr_pre=b, tc_post=t2, tc_pre=t1, tc_eligibility=t1,
+                                                trace_mode=m, batch_reduction=f)),
     "DelayAdjustedMSTDP": (L.DelayAdjustedMSTDP, "weight", 3, True,
-                           lambda a, b, f, **o: L.DelayAdjustedMSTDP(a, b, TAU, TAU, batch_reduction=f)),
+                           lambda a, b, t1, t2, m, f: dict(lr_pos=a, lr_neg=b, tc_pos=t1, tc_neg=t2,
+                                                           batch_reduction=f)),
     "DelayAdjustedMSTDPD": (L.DelayAdjustedMSTDPD, "delay", 3, True,
-                            lambda a, b, f, **o: L.DelayAdjustedMSTDPD(a, b, TAU, TAU, batch_reduction=f)),
-    "KernelSTDP": (L.KernelSTDP, "weight", 2, False,
-                   lambda a, b, f, **o: L.KernelSTDP(F.exp_stdp_post_kernel, F.exp_stdp_pre_kernel,
-                                                     {"learning_rate": a, "time_constant": TAU},
-                                                     {"learning_rate": b, "time_constant": TAU}, batch_reduction=f)),
-    "DelayAdjustedKernelSTDP": (L.DelayAdjustedKernelSTDP, "weight", 2, True,
-                                lambda a, b, f, **o: L.DelayAdjustedKernelSTDP(
-                                    F.exp_stdp_post_kernel, F.exp_stdp_pre_kernel,
-                                    {"learning_rate": a, "time_constant": TAU},
-                                    {"learning_rate": b, "time_constant": TAU}, batch_reduction=f)),
-    "DelayAdjustedKernelSTDPD": (L.DelayAdjustedKernelSTDPD, "delay", 2, True,
-                                 lambda a, b, f, **o: L.DelayAdjustedKernelSTDPD(
-                                     F.exp_stdp_post_kernel, F.exp_stdp_pre_kernel,
-                                     {"learning_rate": a, "time_constant": TAU},
-                                     {"learning_rate": b, "time_constant": TAU}, batch_reduction=f)),
+                            lambda a, b, t1, t2, m, f: dict(lr_neg=a, lr_pos=b, tc_neg=t1, tc_pos=t2,
+                                                            batch_reduction=f)),
+    "KernelSTDP": (L.KernelSTDP, "weight", 2, False, _kern),
+    "DelayAdjustedKernelSTDP": (L.DelayAdjustedKernelSTDP, "weight", 2, True, _kern),
+    "DelayAdjustedKernelSTDPD": (L.DelayAdjustedKernelSTDPD, "delay", 2, True, _kern),
     "HomeoWeight": (L.LinearHomeostasis, "weight", 1, False,
-                    lambda a, b, f, **o: L.LinearHomeostasis(a, None, "weight", batch_reduction=f)),
+                    lambda a, b, t1, t2, m, f: dict(plasticity=a, target=None, param="weight", batch_reduction=f)),
     "HomeoBias": (L.LinearHomeostasis, "bias", 1, False,
-                  lambda a, b, f, **o: L.LinearHomeostasis(a, None, "bias", batch_reduction=f)),
+                  lambda a, b, t1, t2, m, f: dict(plasticity=a, target=None, param="bias", batch_reduction=f)),
     "HomeoDelay": (L.LinearHomeostasis, "delay", 1, True,
-                   lambda a, b, f, **o: L.LinearHomeostasis(a, None, "delay", batch_reduction=f)),
+                   lambda a, b, t1, t2, m, f: dict(plasticity=a, target=None, param="delay", batch_reduction=f)),
 }
 KINDS = {k: v for k, v in KINDS.items() if v[0] is not None}
 NO_ZERO_RATE = {"TripletSTDP", "StableTripletSTDP"}     # pair rate 0 divides by zero in the trace amplitudes
 CLAMP_KINDS = {"KernelSTDP", "DelayAdjustedKernelSTDP", "DelayAdjustedKernelSTDPD"}
 HOMEO_KINDS = {"HomeoWeight", "HomeoBias", "HomeoDelay"}
-HOMEO_TARGET = [[0.5, 0.25]]          # per output, shape (1, NO)
+HOMEO_TARGET = [[0.5, 0.25]]          # a cell's default target: per output, shape (1, NO)
+CALL_TARGET = 0.375                   # target passed with the call
 
 
 def site_of(kind):
     return f"{KINDS[kind][0].__name__}.forward"
 
 
-def make_layer(kind):
+class HP:
+    """Numeric hyperparameters of one configuration (a trainer's defaults or a cell's
+    effective values): sign classes and magnitudes of both rates, both time constants,
+    trace mode, batch reduction, homeostasis target."""
+
+    def __init__(self, r1, r2, red="sum", mag1=MAG1, mag2=MAG2, tc1=TAU, tc2=TAU, mode="cumulative",
+                 target=None):
+        self.r1, self.r2, self.red = r1, r2, red
+        self.mag1, self.mag2, self.tc1, self.tc2, self.mode, self.target = mag1, mag2, tc1, tc2, mode, target
+
+    def with_signs(self, r1, r2, red=None):
+        return HP(r1, r2, red or self.red, self.mag1, self.mag2, self.tc1, self.tc2, self.mode, self.target)
+
+    def kwargs(self, kind):
+        d = KINDS[kind][4](_rate(self.r1, self.mag1), _rate(self.r2, self.mag2), self.tc1, self.tc2, self.mode,
+                           REDS[self.red])
+        if kind in HOMEO_KINDS:
+            d["target"] = (None if self.target is None else float(self.target) if isinstance(self.target, (int, float))
+                           else torch.tensor(self.target))
+        return d
+
+    def describe(self):
+        return {"r1": self.r1, "r2": self.r2, "mag1": self.mag1, "mag2": self.mag2, "tc1": self.tc1,
+                "tc2": self.tc2, "mode": self.mode, "reduction": self.red, "target": self.target}
+
+
+CONN_SIZES = {"dense": (NI, NO), "dense23": (2, 3), "direct": (3, 3), "lateral": (2, 2)}
+
+
+def make_layer(kind, conn="dense"):
+    """Serial(connection + DeltaCurrent, ExactNeuron) with a default updater.  conn: LinearDense
+    3->2, LinearDense 2->3, LinearDirect 3, LinearLateral 2."""
+    from inferno.neural import LinearDirect, LinearLateral
     cls, param, factors, needs_delay, _ = KINDS[kind]
     delay = 3.0 if (needs_delay or param == "delay") else None
-    neuron = ExactNeuron((NO,), DT, rest_v=-60.0, thresh_v=-45.0, batch_size=B)
-    conn = LinearDense((NI,), (NO,), DT, synapse=DeltaCurrent.partialconstructor(1.0), delay=delay,
-                       bias=(param == "bias"), batch_size=B,
-                       weight_init=lambda w: torch.full_like(w, 0.5),
-                       bias_init=lambda b: torch.full_like(b, 0.25),
-                       delay_init=(lambda d: torch.tensor(DELAYS)) if delay is not None else None)
-    conn.updater = conn.defaultupdater()
-    return Serial(conn, neuron)
+    n_in, n_out = CONN_SIZES[conn]
+    neuron = ExactNeuron((n_out,), DT, rest_v=-60.0, thresh_v=-45.0, batch_size=B)
+
+    def dinit(d):
+        idx = torch.arange(d.numel(), dtype=torch.float32).reshape(d.shape)
+        return (idx * 2.0 + torch.floor(idx / 3.0)) % 3.0        # 0,2,1 / 1,0,2 ... dyadic, <= 2 steps
+
+    common = dict(synapse=DeltaCurrent.partialconstructor(1.0), delay=delay, bias=(param == "bias"), batch_size=B,
+                  weight_init=lambda w: torch.full_like(w, 0.5), bias_init=lambda b: torch.full_like(b, 0.25),
+                  delay_init=(lambda d: torch.tensor(DELAYS)) if (delay is not None and conn == "dense")
+                  else (dinit if delay is not None else None))
+    if conn in ("dense", "dense23"):
+        c = LinearDense((n_in,), (n_out,), DT, **common)
+    elif conn == "direct":
+        c = LinearDirect((n_in,), DT, **common)
+    else:
+        c = LinearLateral((n_in,), DT, **common)
+    c.updater = c.defaultupdater()
+    return Serial(c, neuron)
+
+
+def random_history(rng, steps, conn="dense", p=0.45):
+    n_in, n_out = CONN_SIZES[conn]
+    g = torch.Generator().manual_seed(rng.randrange(2 ** 31))
+    return [(torch.rand(B, n_in, generator=g) < p, torch.rand(B, n_out, generator=g) < p) for _ in range(steps)]
 
 
 def histories(rng, steps):
@@ -135,8 +194,8 @@ def call_kwargs(kind, call):
         v = [0.0] * B
         v[call["b"]] = 1.0
         return {"signal": torch.tensor(v), "scale": 1.0}
-    if form == "rates":
-        return {"target": torch.tensor(HOMEO_TARGET)}
+    if form == "rates":       # target given with the call (one float for every cell) or left to the cells' defaults
+        return {"target": CALL_TARGET} if call.get("tg") == "call" else {}
     raise MachineryFailure(f"unknown call {call}")
 
 
@@ -154,34 +213,94 @@ class Probe:
         return update * self.factor
 
 
-class Run:
-    """One real trainer on one real cell, stepped through a spike history; at every step
-    the trainer is invoked once per call variant on a cleared accumulator."""
+class CellView:
+    """One cell of a (possibly shared) trainer: its layer, its accumulator, the forced
+    postsynaptic history (for the homeostasis formula)."""
 
-    def __init__(self, kind, r1, r2, red, **opts):
-        cls, self.param, self.factors, _, make = KINDS[kind]
-        self.kind = kind
-        self.layer = make_layer(kind)
-        self.trainer = make(_rate(r1, MAG1), _rate(r2, MAG2), REDS[red], **opts)
-        self.trainer.register_cell("cell", self.layer.cell)
-        self.acc = getattr(self.layer.updater, self.param)
+    def __init__(self, kind, layer, hp: HP):
+        self.kind, self.layer, self.hp = kind, layer, hp
+        self.param = KINDS[kind][1]
+        self.acc = getattr(layer.updater, self.param)
+        n_out = layer.connection.outshape[0] if hasattr(layer.connection, "outshape") else NO
         self.count = 0
-        self.psum = torch.zeros(B, NO)
+        self.psum = torch.zeros(B, n_out)
 
     def step(self, pre, post):
         self.layer(pre, neuron_kwargs={"override": post})
         self.count += 1
         self.psum += post.float()
 
-    def parts(self, call):
-        """trainer(call) on a cleared accumulator -> (pos, neg) as detached tensors / None."""
+    def clear(self):
         delattr(self.layer.updater, self.param)
-        self.trainer(**call_kwargs(self.kind, call))
+
+    def read(self):
         p, n = self.acc.pos, self.acc.neg
         return (None if p is None else p.detach().clone(), None if n is None else n.detach().clone())
 
     def param_value(self):
         return getattr(self.layer.connection, self.param).detach().clone()
+
+    def target_value(self, call):
+        """The target rate this cell must use: the call's when given, else ITS OWN default."""
+        t = CALL_TARGET if call.get("tg") == "call" else self.hp.target
+        n_out = self.psum.shape[1]
+        return [[float(t)] * n_out] if isinstance(t, (int, float)) else t
+
+    def homeo_k(self, r1, target):
+        """k = plasticity * (target - rate) / target (sign reversed for delays), per sample and
+        output: the documented formula evaluated from the forced spike history (rate =
+        cumulative average of the postsynaptic spikes).  target: (1, n_out) list."""
+        tgt = torch.tensor(target)
+        rate = self.psum / self.count
+        k = (tgt - rate) / tgt * _rate(r1, self.hp.mag1)
+        if self.param == "delay":
+            k = -k
+        return k
+
+
+class MultiRun:
+    """ONE real trainer constructed with default hyperparameters, with one or several cells
+    registered on it - each with its own keyword overrides, connection kind and spike history.
+    trainer(call) is invoked once for all cells on cleared accumulators."""
+
+    def __init__(self, kind, defaults: HP, cells):
+        """cells: list of (override keys or None for all / [] for none, effective HP, conn kind)."""
+        cls = KINDS[kind][0]
+        self.kind = kind
+        self.trainer = cls(**defaults.kwargs(kind))
+        self.cells = []
+        for j, (keys, hp, conn) in enumerate(cells):
+            layer = make_layer(kind, conn)
+            kw = hp.kwargs(kind)
+            if keys is not None:
+                kw = {k: v for k, v in kw.items() if k in keys}
+            self.trainer.register_cell(f"cell{j}", layer.cell, **kw)
+            self.cells.append(CellView(kind, layer, hp))
+
+    def call(self, call):
+        for c in self.cells:
+            c.clear()
+        self.trainer(**call_kwargs(self.kind, call))
+        return [c.read() for c in self.cells]
+
+
+class Run(CellView):
+    """One real trainer on one real cell (hyperparameters given to the constructor), stepped
+    through a spike history; at every step the trainer is invoked once per call variant on a
+    cleared accumulator."""
+
+    def __init__(self, kind, r1, r2, red, hp: HP | None = None, conn="dense"):
+        hp = (hp or HP(r1, r2, red)).with_signs(r1, r2, red)
+        self.multi = MultiRun(kind, hp, [([], hp, conn)])
+        cell = self.multi.cells[0]
+        self.__dict__.update(cell.__dict__)
+        self.trainer = self.multi.trainer
+
+    def parts(self, call):
+        """trainer(call) on a cleared accumulator -> (pos, neg) as detached tensors / None."""
+        self.clear()
+        self.trainer(**call_kwargs(self.kind, call))
+        return self.read()
 
     def apply_with_probes(self, call):
         """trainer(call) then connection.update() with recording bounds installed."""
@@ -195,14 +314,3 @@ class Run:
         self.acc.upperbound(None)
         self.acc.lowerbound(None)
         return pos, neg, up.got, lo.got, before, after
-
-    def homeo_k(self, r1):
-        """k = plasticity * (target - rate) / target (sign reversed for delays), reduced over
-        the receptive dimension, per sample: the documented formula evaluated from the
-        forced spike history (rate = cumulative average of the postsynaptic spikes)."""
-        target = torch.tensor(HOMEO_TARGET)
-        rate = self.psum / self.count
-        k = (target - rate) / target * _rate(r1, MAG1)
-        if self.param == "delay":
-            k = -k
-        return k          # (B, NO)
